@@ -150,6 +150,14 @@ func genCase(t *rapid.T, planted bool) *Case {
 		if p == nil {
 			t.Skip("no planting operator applicable")
 		}
+		if p.Op == "rpc-empty-request" || p.Op == "rpc-empty-response" {
+			// each of the two rpc_allow_google_protobuf_empty_* options switches off exactly its own side
+			o.RPCAllowEmptyReq = rapid.Bool().Draw(t, "allowemptyreq")
+			o.RPCAllowEmptyResp = rapid.Bool().Draw(t, "allowemptyresp")
+			if (p.Op == "rpc-empty-request" && o.RPCAllowEmptyReq) || (p.Op == "rpc-empty-response" && o.RPCAllowEmptyResp) {
+				p.Op, p.Sites = p.Op+"-allowed", nil
+			}
+		}
 		if p.Op == "rpc-same-request-response" && rapid.Bool().Draw(t, "allowsame") {
 			// rpc_allow_same_request_response switches exactly this violation off
 			o.RPCAllowSame = true
